@@ -1,8 +1,9 @@
 CONSTANTS
   N = 3
   MaxTasks = 4
+  G = 1
   Dev = {}
 SPECIFICATION Spec
 CHECK_DEADLOCK FALSE
-INVARIANTS TypeOK AtMostOnce OnlySubmittedRun LockNotHeldWhileRunning LockConsistent NeverPoisoned NoLossNoDup NoPrematureExit SingleShutdown
+INVARIANTS TypeOK AtMostOnce OnlySubmittedRun LockNotHeldWhileRunning LockConsistent NeverPoisoned NoLossNoDup NoPrematureExit SingleShutdown HandlesOwn
 PROPERTIES LiveAll
